@@ -37,6 +37,35 @@ def quiet():
 quiet()
 
 
+class debug_logging:
+    """with debug_logging(True): the module logger of format_inspector is at DEBUG with a real StreamHandler
+    attached (to a scratch buffer), so lazily formatted log arguments are actually rendered; with False the
+    logger stays silent (arguments are never formatted)"""
+
+    def __init__(self, on):
+        self.on = on
+
+    def __enter__(self):
+        if not self.on:
+            return self
+        self.lg = logging.getLogger('oslo_utils.imageutils.format_inspector')
+        self.saved = (self.lg.level, logging.raiseExceptions)
+        self.buf = io.StringIO()
+        self.h = logging.StreamHandler(self.buf)
+        self.h.setFormatter(logging.Formatter('%(levelname)s %(message)s'))
+        self.lg.addHandler(self.h)
+        self.lg.setLevel(logging.DEBUG)
+        logging.raiseExceptions = False       # a handler swallows formatting errors; keep stderr clean
+        return self
+
+    def __exit__(self, *a):
+        if self.on:
+            self.lg.removeHandler(self.h)
+            self.lg.setLevel(self.saved[0])
+            logging.raiseExceptions = self.saved[1]
+        return False
+
+
 def fi():
     return insp_impl.fi()
 
@@ -258,12 +287,62 @@ def injected_class(tname):
 
 Injected.injected = True
 
+EXC_SHAPES = ['one', 'noargs', 'empty', 'two', 'many', 'nonstr', 'none', 'badarg', 'badstr', 'badrepr', 'long', 'bytes']
+
+
+class _BadText:
+    def __str__(self):
+        raise RuntimeError('str() of an exception argument raised')
+
+    def __repr__(self):
+        raise RuntimeError('repr() of an exception argument raised')
+
+
+def injected_instance(spec, note):
+    """spec = '<type>' or '<type>/<shape>': an exception object of that type whose SHAPE varies - no arguments,
+    an empty message, several / non-string / None / bytes arguments, an argument whose str() and repr() raise,
+    a class whose own __str__ / __repr__ raises, a very long message"""
+    tname, _, shape = spec.partition('/')
+    cls = injected_class(tname)
+    shape = shape or 'one'
+    if shape == 'one':
+        return cls(note)
+    if shape == 'noargs':
+        return cls()
+    if shape == 'empty':
+        return cls('')
+    if shape == 'two':
+        return cls(2, note) if issubclass(cls, OSError) else cls(note, 'second argument')
+    if shape == 'many':
+        return cls(1, None, b'x', ('t',), 2.5)
+    if shape == 'nonstr':
+        return cls(12345)
+    if shape == 'none':
+        return cls(None)
+    if shape == 'bytes':
+        return cls(b'\xff\x00 not text')
+    if shape == 'badarg':
+        return cls(_BadText())
+    if shape == 'long':
+        return cls('x' * 300000)
+    if shape in ('badstr', 'badrepr'):
+        key = spec
+
+        def boom(self):
+            raise RuntimeError('__str__/__repr__ of the exception raised')
+        if key not in _INJ:
+            _INJ[key] = type(cls.__name__ + '_' + shape, (cls,),
+                             {'__str__': boom} if shape == 'badstr' else {'__repr__': boom, '__str__': boom})
+        return _INJ[key](note)
+    raise ValueError('unknown exception shape %r' % shape)
+
 
 def norm_fault(f):
     """(name, k) | (name, k, kind) -> (name, k, kind); kind is 'eat:<type>' (raised in front of eat_chunk on the
     inspector's k-th feed), 'post:<type>' (raised by post_process inside the k-th eat_chunk, after the
     position counter and the regions were updated), or 'complete' / 'format_match' (that property raises
     whenever it is read once the inspector has been fed its k-th chunk)"""
+    # <type> may carry a shape: 'eat:ValueError/noargs' (see injected_instance)
     f = tuple(f)
     if len(f) == 2:
         return (f[0], int(f[1]), 'eat:RuntimeError')
@@ -351,11 +430,11 @@ def pipe_trace(allowed, expected, data, sizes, faults, iterator=False, via_iter_
                     # the wrapper finished this inspector and still feeds it: not a fault of the inspector
                     fed_after_finish.append((i.NAME, cur[0]))
                 if k in eatf:
-                    exc = injected_class(eatf[k].split(':', 1)[1])('injected %s@%d' % (i.NAME, k))
+                    exc = injected_instance(eatf[k].split(':', 1)[1], 'injected %s@%d' % (i.NAME, k))
                     events[i.NAME].append((cur[0], exc, None, None))
                     raise exc
                 if k in postf:
-                    arm[0] = injected_class(postf[k].split(':', 1)[1])('injected into post_process %s@%d' % (i.NAME, k))
+                    arm[0] = injected_instance(postf[k].split(':', 1)[1], 'injected into post_process %s@%d' % (i.NAME, k))
                     armed = arm[0]
                 try:
                     r = real(chunk)
